@@ -154,9 +154,9 @@ Proof.
 Qed.
 
 (* SaveAutofixChanges: disk and report do not depend on the cache *)
-Lemma save_lines_cache_free md c1 c2 d ls :
-  snd (fst (save_lines md c1 d ls)) = snd (fst (save_lines md c2 d ls)) /\
-  snd (save_lines md c1 d ls) = snd (save_lines md c2 d ls).
+Lemma save_lines_cache_free md fl c1 c2 d ls :
+  snd (fst (save_lines md fl c1 d ls)) = snd (fst (save_lines md fl c2 d ls)) /\
+  snd (save_lines md fl c1 d ls) = snd (save_lines md fl c2 d ls).
 Proof.
   unfold save_lines. destruct (negb (opt_autofix md)); simpl; auto.
   rewrite !save_autofix_fold. simpl. auto.
@@ -168,10 +168,10 @@ Proof.
   apply IH. unfold evict. rewrite H. simpl. auto.
 Qed.
 
-Lemma save_lines_empty md c d ls : c_map c = [] -> c_map (fst (fst (save_lines md c d ls))) = [].
+Lemma save_lines_empty md fl c d ls : c_map c = [] -> c_map (fst (fst (save_lines md fl c d ls))) = [].
 Proof.
-  intros H. destruct (save_lines md c d ls) as [[c' d'] w] eqn:S.
-  destruct (save_lines_spec _ _ _ _ _ _ _ S) as (ks & -> & _). simpl. apply evicts_empty; auto.
+  intros H. destruct (save_lines md fl c d ls) as [[c' d'] w] eqn:S.
+  destruct (save_lines_spec _ _ _ _ _ _ _ _ S) as (ks & -> & _). simpl. apply evicts_empty; auto.
 Qed.
 
 (* one step *)
@@ -183,7 +183,7 @@ Lemma step_sim md cap disk s1 s2 o : (1 <= cap)%nat -> reach convert is_mk md ca
   | _, _ => False
   end.
 Proof.
-  intros Hc R S M Gd. destruct o as [fn opts|v i f|v|k x].
+  intros Hc R S M Gd. destruct o as [fn opts|v i f|v fl|k x].
   - (* Load *)
     pose proof (guarded_load_like md cap disk s1 fn opts Hc R Gd) as L1.
     destruct (nocache_load_like s2 fn opts M) as [L2 M2].
@@ -202,11 +202,11 @@ Proof.
     simpl. rewrite <- (sim_view_lines _ _ v S).
     destruct (view_lines s1 v) as [[fn ls]|]; [|split; auto].
     destruct S as (H1 & H2 & H3 & H4).
-    destruct (save_lines_cache_free md (st_cache s1) (st_cache s2) (st_disk s1) ls) as [E1 E2].
-    pose proof (save_lines_empty md (st_cache s2) (st_disk s1) ls M) as E3.
+    destruct (save_lines_cache_free md fl (st_cache s1) (st_cache s2) (st_disk s1) ls) as [E1 E2].
+    pose proof (save_lines_empty md fl (st_cache s2) (st_disk s1) ls M) as E3.
     rewrite <- H3.
-    destruct (save_lines md (st_cache s1) (st_disk s1) ls) as [[c1' d1'] w1].
-    destruct (save_lines md (st_cache s2) (st_disk s1) ls) as [[c2' d2'] w2].
+    destruct (save_lines md fl (st_cache s1) (st_disk s1) ls) as [[c1' d1'] w1].
+    destruct (save_lines md fl (st_cache s2) (st_disk s1) ls) as [[c2' d2'] w2].
     simpl in *. subst. split; [unfold sim; simpl; rewrite H4; auto|auto].
   - (* Modify *)
     destruct S as (H1 & H2 & H3 & H4). simpl. rewrite H3.
